@@ -17,7 +17,7 @@ from ..common import Ctx, pmap, jhash
 from .. import matlib
 
 FRAMES = {}
-PATHS = ["sugar", "formula", "spec", "materializer", "attached", "sugar-attached"]
+PATHS = ["sugar", "formula", "spec", "materializer", "attached", "sugar-attached", "materializer-reused"]
 OUTPUTS = ["pandas", "numpy", "sparse"]
 MATS = ["pandas", "narwhals-pandas", "narwhals-arrow"]
 ALL = [(p, o, m) for p in PATHS for o in OUTPUTS for m in MATS]
@@ -41,7 +41,14 @@ def build(formula, data, path, output, mat, case):
     if path in ("attached", "sugar-attached"):      # the spec attached to an earlier result, applied to the same data
         spec = model_matrix(formula, data, context={}, materializer=matname, **kw).model_spec
         return spec.get_model_matrix(data, context={}) if path == "attached" else model_matrix(spec, data, context={})
-    return FormulaMaterializer.for_materializer(matname)(data, context={}).get_model_matrix(formula, **kw)
+    inst = FormulaMaterializer.for_materializer(matname)(data, context={})
+    if path == "materializer-reused":      # the same materializer object has already produced another output type
+        other = dict(kw, output={"pandas": "sparse", "numpy": "pandas", "sparse": "numpy"}[output])
+        try:
+            inst.get_model_matrix(formula, **other)
+        except Exception:  # noqa  (the first call is not what this combination judges)
+            pass
+    return inst.get_model_matrix(formula, **kw)
 
 
 def replay_case(case):
@@ -378,14 +385,14 @@ def registry_leg(ctx: Ctx, maxops: int):
 
 def run(ctx: Ctx) -> None:
     global FRAMES, PER_CASE
-    ctx.rule = ("the (formula, frame, options) enumeration of MC_Materialize; per case 6 (quick) or all 54 (thorough, 1/4 slice) combinations of entry "
-                "point x output x materializer/data form, rotated so that every combination is exercised; every contrast coding of MC_Contrasts (n <= 4 / 6) on all 54 combinations; non-trivial = >= 2 columns, >= 2 rows")
+    ctx.rule = ("the (formula, frame, options) enumeration of MC_Materialize; per case 6 (quick) or all 63 (thorough, 1/4 slice) combinations of entry "
+                "point x output x materializer/data form, rotated so that every combination is exercised; every contrast coding of MC_Contrasts (n <= 4 / 6) on all 63 combinations; non-trivial = >= 2 columns, >= 2 rows")
     ctx.trusted = ["gamma (incl. pyarrow.Table.from_pandas) / alpha of the materializer family", "TLC"]
     if ctx.quick:
         PER_CASE = 6
         FRAMES, cases = matlib.run_enumeration(ctx, "c05", 2, "all", ["UnreducedLayout", "ScaleOnce"], slice_mod=3)
     else:
-        PER_CASE = 54
+        PER_CASE = 63
         FRAMES, cases = matlib.run_enumeration(ctx, "c05", 2, "all", ["UnreducedLayout", "ScaleOnce"], slice_mod=2)
     res = pmap("harness.props.c05", "replay_case", cases, chunk=60)
     seen = set()
